@@ -9,10 +9,11 @@ import random
 
 PROPERTY = "C05"
 RULE = (
-    "case = (kernel spec incl. composition/ARD/active_dims, d, (n1,n2) pattern incl. n1!=n2, same-tensor and n=1, parameter batch x "
-    "input batch, evaluation path in {no-grad fast path, inputs requiring grad, trace_mode}, parameter regime in {random, small, large}, "
-    "seed); derivative kernels over n1!=n2, d in 1..3; distinct = distinct cell (all but seed); non-trivial iff the reference matrix is "
-    "not constant (max-min > 1e-6) or the kernel is the constant kernel"
+    'case = (kernel spec incl. composition/ARD/active_dims, d, (n1,n2) pattern incl. n1!=n2, same-tensor and n=1, parameter batch x input batch, '
+    'evaluation path in {no-grad fast path, inputs requiring grad, trace_mode}, parameter regime in {random, small, large, far-from-origin with > '
+    '25 rows}, float32 slice and float64-under-float32-default slice, last_dim_is_batch, seed); derivative kernels over n1!=n2, d in 1..3; '
+    'distinct = distinct cell (all but seed); non-trivial iff the reference matrix is not constant (max-min > 1e-6) or the kernel is the constant '
+    'kernel'
 )
 REQUIRED = ["kernel_value", "kernel_diag", "grad_kernel_value", "path:RBFCovariance.forward", "path:MaternCovariance.forward"]
 ASSUMPTIONS = [
